@@ -77,6 +77,11 @@ type Case struct {
 	Msize   uint32  `json:"msize"`
 	Ops     []Op    `json:"ops"`
 	Cli     []CliOp `json:"cli"`
+	// Conc: after the sequential calls, the SAME client is used by len(Conc)
+	// goroutines at the same time; goroutine g makes the calls Conc[g], Rounds
+	// times over. Every result is judged like a sequential one.
+	Conc   [][]CliOp `json:"conc,omitempty"`
+	Rounds int       `json:"rounds,omitempty"`
 }
 
 // infraError marks trouble of the harness / sandbox (never a violation).
@@ -442,7 +447,7 @@ func RunCase(c *Case) (verr error) {
 	x.raw.Close()
 
 	// ---- go9p client ----
-	if len(c.Cli) > 0 {
+	if len(c.Cli) > 0 || len(c.Conc) > 0 {
 		// same as ufsrv.Mount, but the server end of the pair is kept: it records
 		// every byte the client writes, so the Twalks of an FWalk can be inspected
 		h, l := xport.Pair("c16-clnt")
@@ -458,16 +463,119 @@ func RunCase(c *Case) (verr error) {
 		if clnt.Dotu != c.SrvDotu {
 			return fmt.Errorf("go9p client negotiated .u=%v with a server configured .u=%v", clnt.Dotu, c.SrvDotu)
 		}
+		deepBefore := 0
 		for i := range c.Cli {
-			if err := x.doCli(clnt, i, &c.Cli[i]); err != nil {
+			if err := x.doCli(clnt, fmt.Sprintf("client op %d", i), &c.Cli[i]); err != nil {
 				return err
 			}
 			if err := x.checkWire(i, &c.Cli[i]); err != nil {
 				return err
 			}
+			if len(c.Cli[i].Elems) > 16 {
+				deepBefore++
+			}
+		}
+		if len(c.Conc) > 0 {
+			if err := x.doConc(clnt, deepBefore); err != nil {
+				return err
+			}
 		}
 	}
 	return nil
+}
+
+// concDeadline only detects a hang of the concurrent phase.
+const concDeadline = 30 * time.Second
+
+// doConc is the concurrent phase: the client that has resolved the sequential
+// paths (deepBefore of them deeper than 16 elements, i.e. split into several
+// Twalks) is now shared by len(c.Conc) goroutines. They start together; each
+// makes its own calls, Rounds times over, and every single result is compared
+// with the local object exactly as in the sequential phase. Which goroutine's
+// failure is reported does not depend on who noticed first: the lowest
+// goroutine number wins.
+func (x *executor) doConc(clnt *go9p.Clnt, deepBefore int) error {
+	c := x.c
+	if len(c.Conc) > 16 {
+		return infraf("case: %d goroutines", len(c.Conc))
+	}
+	rounds := c.Rounds
+	if rounds < 1 {
+		rounds = 1
+	}
+	if rounds > 8 {
+		return infraf("case: %d rounds", rounds)
+	}
+	x.inoName(0) // fill the inode table before it is read from several goroutines
+	deepIn, calls := 0, 0
+	for _, ops := range c.Conc {
+		for i := range ops {
+			calls++
+			if len(ops[i].Elems) > 16 {
+				deepIn++
+			}
+		}
+	}
+	hist := "none"
+	switch {
+	case deepBefore > 0 && deepIn > 0:
+		hist = "before+during"
+	case deepBefore > 0:
+		hist = "before"
+	case deepIn > 0:
+		hist = "during"
+	}
+	hx.Label(fmt.Sprintf("concurrent phase goroutines=%d deep-paths=%s", len(c.Conc), hist))
+	if hist != "none" && calls >= 2 {
+		cb, _ := json.Marshal(c.Conc)
+		sb, _ := json.Marshal(c.Cli)
+		hx.NonTrivial("conc", x.treeH, sb, cb, rounds, c.SrvDotu)
+	}
+	errs := make([]error, len(c.Conc))
+	start := make(chan struct{})
+	done := make(chan int, len(c.Conc))
+	for g := range c.Conc {
+		go func(g int) {
+			defer func() { done <- g }()
+			<-start
+			for r := 0; r < rounds; r++ {
+				for i := range c.Conc[g] {
+					tag := fmt.Sprintf("concurrent phase (%d goroutines share the client; %d paths deeper than 16 elements were resolved before it, %d are part of it): goroutine %d round %d call %d", len(c.Conc), deepBefore, deepIn, g, r, i)
+					if err := x.doCli(clnt, tag, &c.Conc[g][i]); err != nil {
+						errs[g] = err
+						return
+					}
+				}
+			}
+		}(g)
+	}
+	close(start)
+	timer := time.NewTimer(concDeadline)
+	defer timer.Stop()
+	for n := 0; n < len(c.Conc); n++ {
+		select {
+		case <-done:
+		case <-timer.C:
+			if blocked := hx.BlockedInGo9p(); blocked != "" {
+				return fmt.Errorf("concurrent phase: %d of %d goroutines sharing the client did not finish within %v; goroutines blocked inside go9p:\n%s", len(c.Conc)-n, len(c.Conc), concDeadline, blocked)
+			}
+			return infraf("concurrent phase did not finish within %v and nothing is blocked inside go9p", concDeadline)
+		}
+	}
+	var infra error
+	for _, e := range errs {
+		if e == nil {
+			continue
+		}
+		if !isInfra(e) {
+			return e
+		}
+		infra = e
+	}
+	if infra != nil {
+		return infra
+	}
+	return x.checkWireConc()
 }
 
 func (x *executor) doOp(i int, op *Op) error {
@@ -1044,7 +1152,7 @@ func cliPath(op *CliOp) string {
 	return lead + strings.Join(parts, sep)
 }
 
-func (x *executor) doCli(clnt *go9p.Clnt, i int, op *CliOp) error {
+func (x *executor) doCli(clnt *go9p.Clnt, tag string, op *CliOp) error {
 	for _, e := range op.Elems {
 		s := string(e)
 		if s == "" || s == "." || s == ".." || strings.ContainsAny(s, "/\x00") {
@@ -1072,7 +1180,7 @@ func (x *executor) doCli(clnt *go9p.Clnt, i int, op *CliOp) error {
 	}
 	path := cliPath(op)
 	what := lazy(func() string {
-		return fmt.Sprintf("client op %d: %s(%d elements, style %d, %s) .u=%v", i, op.Kind, len(op.Elems), op.Style, shortPath(x.root, local), dotu)
+		return fmt.Sprintf("%s: %s(%d elements, style %d, %s) .u=%v", tag, op.Kind, len(op.Elems), op.Style, shortPath(x.root, local), dotu)
 	})
 	hx.Eval()
 	hx.Label(fmt.Sprintf("client %s depth=%s exists=%v", op.Kind, depthClass(len(op.Elems)), exists))
@@ -1215,6 +1323,28 @@ func (x *executor) checkWire(i int, op *CliOp) error {
 		}
 	}
 	hx.Label(fmt.Sprintf("client twalks per call=%d", ntwalk))
+	return nil
+}
+
+// checkWireConc looks at everything the client wrote during the concurrent
+// phase: whole frames that decode strictly, and no Twalk with more than 16 names.
+func (x *executor) checkWireConc() error {
+	all, _ := x.wire.Received()
+	fresh := all[x.wireOff:]
+	x.wireOff = len(all)
+	frames, rest, err := ref9p.SplitFrames(fresh)
+	if err != nil || len(rest) != 0 {
+		return fmt.Errorf("concurrent phase: bytes written by the client are not whole frames (%v, %d left over)", err, len(rest))
+	}
+	for _, f := range frames {
+		m, _, err := ref9p.Decode(f, x.c.SrvDotu)
+		if err != nil {
+			return fmt.Errorf("concurrent phase: the client sent a frame that does not decode strictly: %v", err)
+		}
+		if m.Type == ref9p.Twalk && len(m.Wname) > 16 {
+			return fmt.Errorf("concurrent phase: the client sent a Twalk with %d names (the protocol allows 16)", len(m.Wname))
+		}
+	}
 	return nil
 }
 
